@@ -107,13 +107,23 @@ def examineD (rq : Request) (d : Datagram) : Step :=
     else if !questionMatches then .skip .question
     else .accept
 
-/-- Decidable class `C16.UdpEndsInsteadOfSkipped`: a datagram from the queried address and port that
-is not accepted and is not skipped either — it ends the transmission with an error (undecodable, not
-a response, or — case randomisation on, right id, asked questions — different letter case). -/
+/-- Decidable class `C16.udp-query-ended-by-undecodable-or-nonresponse-datagram-from-queried-address`:
+a datagram from the queried address and port that does not decode or is not a response. The loop does
+not skip it: `DnsResponse::from_buffer(..)?` ends the transmission with an error. -/
+def endsUndecodable (rq : Request) (d : Datagram) : Bool :=
+  sourceOk rq d && (!d.parses || !d.isResponse)
+
+/-- Decidable class `C16.udp-query-ended-by-case-mismatched-reply`: case randomisation on, right
+address, port and id, a decodable response whose questions were all asked up to letter case but not
+letter for letter. The loop does not skip it: `return Err(NetError::QueryCaseMismatch)` (deliberate:
+callers fall back to TCP on it). -/
+def endsCaseMismatch (rq : Request) (d : Datagram) : Bool :=
+  sourceOk rq d && d.parses && d.isResponse && decide (rq.id = d.id) && rq.caseRand &&
+    d.questions.all (asked rq) && !d.questions.all (askedCase rq)
+
+/-- a non-matching datagram that is not skipped: exactly the two classes above -/
 def endsInsteadOfSkipped (rq : Request) (d : Datagram) : Bool :=
-  sourceOk rq d &&
-    (!d.parses || !d.isResponse ||
-      (decide (rq.id = d.id) && rq.caseRand && d.questions.all (asked rq) && !d.questions.all (askedCase rq)))
+  endsUndecodable rq d || endsCaseMismatch rq d
 
 def examine (rq : Request) : Event → Step
   | .ioErr => .fail .io
@@ -214,6 +224,26 @@ def outcomeOf : Option (Nat × Nat × RecvOutcome) → QueryOutcome
 /-- `send_message(request)` → first item of the response stream. -/
 def query (c : Config) (rq : Request) (ss : List (List Timed)) : QueryOutcome :=
   outcomeOf (earliest c rq c.tasks 0 ss)
+
+/-- which known-finding class, if any, the end of a query falls in -/
+inductive EndClass where
+  | none | undecodable | caseMismatch
+  deriving DecidableEq, Repr
+
+/-- The query was ended by a datagram that the property wants skipped: the transmission that ended
+it failed on its 1st or 2nd datagram (on the 3rd the transmission is over either way, so nothing is
+observable) and that datagram is in one of the two classes. -/
+def queryEndClass (c : Config) (rq : Request) (ss : List (List Timed)) : EndClass :=
+  match earliest c rq c.tasks 0 ss with
+  | some (_, i, .fail j _) =>
+    if j + 1 < MAX_EXAMINED then
+      match (ss.getD i [])[j]? with
+      | some (_, .dgram d) =>
+        if endsUndecodable rq d then .undecodable
+        else if endsCaseMismatch rq d then .caseMismatch else .none
+      | _ => .none
+    else .none
+  | _ => .none
 
 /-- time at which the query ends -/
 def endTime (c : Config) (rq : Request) (ss : List (List Timed)) : Nat :=
